@@ -243,6 +243,38 @@ theorem wake_retry_justified (stub : Nat) (nodeOf : Nat → Nat) (es : List Ev) 
     ∃ g, (s.pc g).isPre = true ∨ ∃ m p i, s.pc g = .pushXchgd m p i :=
   (inv_of_run h).retry_justified (nz_of_run h) hs
 
+/-! ### the woken fiber is the new owner -/
+
+/-- Data path of the hand-off, for every initial node assignment in which the fibers' nodes
+    are distinct and differ from the queue's stub (`NodesOk`; the harness's assignment
+    satisfies it: `nodesOk_harness`).  The fiber `g` a waker reads from the popped node — the
+    one whose `mpsc_fifo_node` it sets, whose `state` it reads/writes and which it passes to
+    `fiber_manager_schedule` — is exactly the fiber that was handed the mutex by the pop, and
+    it is parked.  (Between `head := next` and the read of `next->data`, that cell already
+    holds the owner.)  So the waiter that is woken is the one that now owns the mutex: no
+    waiter is woken without owning, and the new owner is not left asleep. -/
+theorem wakes_the_owner (stub : Nat) (nodeOf : Nat → Nat) (hn : NodesOk stub nodeOf)
+    (es : List Ev) (s : St) (h : (sys stub nodeOf).run es = some s) :
+    (∀ w g, (s.pc w).woken = some g → s.owner = some g ∧ s.pc g = .parked) ∧
+    (∀ w hnode x, s.pc w = .popMoved hnode x → ∃ g, s.owner = some g ∧ s.ndata x = g) := by
+  have hd := dp_of_run hn h
+  have hi := inv_of_run h
+  refine ⟨fun w g hw => ?_, fun w hnode x hw => (hd.moved w x (by rw [hw]; rfl)).2⟩
+  have ho := hd.woke w g hw
+  obtain ⟨g', h1, h2⟩ := hi.waking_owner (hi.post_waking w (by
+    cases hp : s.pc w <;> simp_all [Pc.woken, Pc.k]))
+  rw [ho] at h1; cases h1
+  exact ⟨ho, (k_parked _).1 h2⟩
+
+/-- Exclusive node ownership (the client side of mpsc_fifo.h's "the FIFO owns new_node after
+    pushing, the caller owns the node after popping"): at any time a non-NULL node is claimed
+    by at most one of: a fiber (its `mpsc_fifo_node` / the node it is enqueueing), a queue
+    entry not yet popped, the queue's stub, a popper that has not yet handed it on. -/
+theorem node_ownership_exclusive (stub : Nat) (nodeOf : Nat → Nat) (hn : NodesOk stub nodeOf)
+    (es : List Ev) (s : St) (h : (sys stub nodeOf).run es = some s) :
+    ∀ c c', claim s c ≠ 0 → claim s c = claim s c' → c = c' :=
+  (dp_of_run hn h).inj
+
 /-! ### single consumer of the waiter queue -/
 
 /-- At most one fiber is inside `mpsc_fifo_trypop` / the wake loop (before or after the pop
@@ -338,5 +370,10 @@ example : ∃ es s s', (sys 1 (· + 2)).run es = some s ∧ (s.pc 16).isWake = t
 example : ∃ es s s', (sys 1 (· + 2)).run es = some s ∧
     (sys 1 (· + 2)).step s (.rNext 16 1 0) = some s' :=
   ⟨contendedTrace.take 18, _, _, rfl, rfl⟩
+
+/-- `wakes_the_owner` is not vacuous: after the waker read fiber 17 from the popped node -/
+example : NodesOk 1 (· + 2) ∧ ((sys 1 (· + 2)).run (contendedTrace.take 24)).map
+    (fun s => ((s.pc 16).woken, s.owner, s.pc 17)) = some (some 17, some 17, .parked) :=
+  ⟨nodesOk_harness, rfl⟩
 
 end LibfiberVerif.Mutex
